@@ -59,6 +59,12 @@ def run_mutant(mut, feature_set='default'):
         only = set(r for r, _ in mut['expect']) if mut.get('expect') else None
         core.run_rules(ctx, only=only)
         bad = [r for r in ctx.results if r.status in ('violation', 'shape')]
+        if mut.get('benign'):
+            known, _ = core.load_known()
+            kk = set(k for _, k in known)
+            bad = [r for r in bad if r.key not in kk]
+            return {'id': mut['id'], 'status': 'false-alarm' if bad else 'silent',
+                    'reports': ['%s %s/%s: %s' % (r.status, r.rule, r.instance, r.msg) for r in bad][:6]}
         fired = []
         for rule_id, inst in mut.get('expect', []):
             hit = [r for r in bad if r.rule == rule_id and (inst in r.instance or inst == '*')]
@@ -88,8 +94,9 @@ if __name__ == '__main__':
     res, dt = run_all(ids=ids)
     for r in res:
         print('%-8s %s  %s' % (r['status'], r['id'], r.get('why', '')))
-        if r['status'] != 'skipped' and ('-v' in sys.argv or r['status'] == 'missed'):
+        if r['status'] != 'skipped' and ('-v' in sys.argv or r['status'] in ('missed', 'false-alarm')):
             for x in r.get('reports', []):
                 print('         ', x)
-    print('%d fired / %d valid (%d total) in %.1fs' % (
-        sum(r['status'] == 'fired' for r in res), sum(r['status'] in ('fired', 'missed') for r in res), len(res), dt))
+    print('%d fired / %d breaking; %d silent / %d benign; (%d total) in %.1fs' % (
+        sum(r['status'] == 'fired' for r in res), sum(r['status'] in ('fired', 'missed') for r in res),
+        sum(r['status'] == 'silent' for r in res), sum(r['status'] in ('silent', 'false-alarm') for r in res), len(res), dt))
